@@ -22,7 +22,7 @@ RULE = (
     "real process on a loopback port; the xandikos.wsgi module in a fresh process behind WellknownRedirector and a SCRIPT_NAME mount} x restarts {0, 1, 3}. A discovery client written for the "
     "harness starts at /.well-known/caldav, /.well-known/carddav and the root URL, follows redirects, reads current-user-principal, then calendar-home-set / addressbook-home-set / resourcetype of "
     "the principal, then lists the home sets with Depth 1, using only hrefs the server returned. It must reach >=1 calendar and >=1 address book; an event and a contact stored before the first "
-    "restart must be served with unchanged ETag and bytes after every restart and the set of collections must not change across restarts. Before the restarts the client also creates a collection of one type in a home set, deletes it and creates a collection of the "
+    "restart must be served with unchanged ETag and bytes after every restart and the set of collections must not change across restarts. Before the restarts the client also stores an event and a contact directly in the home sets (the collections must stay reachable), creates a collection of one type in a home set, deletes it and creates a collection of the "
     "other type at the same URL (both orders): discovery must list what exists now, with its type. Quick: 96 configurations (all with >=1 restart) sampled with the seed; "
     "thorough: all 288. Non-trivial: non-root prefix or nested principal, with >=1 restart; distinct by configuration."
 )
@@ -381,6 +381,15 @@ def run_config(cfg):
                 if st != 200:
                     return fail("get-after-put-failed", f"GET {u!r} answered {st}")
                 before[u] = (h.get("etag"), b)
+            # a sloppy client stores an object directly in a home set: whatever the answer, the collections stay reachable
+            if cfg.get("stray", True):
+                for kind, nm, ct, body in (("calendar", "stray.ics", "text/calendar", ICS.replace(b"c18-event", b"c18-stray")), ("addressbook", "stray.vcf", "text/vcard", VCF.replace(b"c18-card", b"c18-stray"))):
+                    home = found[kind][1][0]
+                    st, h, b = srv.request("PUT", home + nm, [("Content-Type", ct)], body)
+                    trace.append(("stray-object", home + nm, st))
+                now = discover(srv, starts[0], trace)
+                if now != found:
+                    return fail("collections-hidden-by-object-in-home-set", f"after a PUT of an event / a contact directly into the home sets discovery reaches {now}, before {found}")
             # a collection of one type replaced by a collection of the other type at the same URL: discovery must
             # report what exists now, in the running server and after every restart
             kinds = [("C:mkcalendar", None, "calendar"), ("D:mkcol", "<D:collection/><A:addressbook/>", "addressbook")]
